@@ -1,6 +1,6 @@
 (* C07 — per-operation specifications, the reference byte FIFO, and the
    history-level theorems. *)
-From MV Require Import C07.Model C07.ProofsList C07.Proofs.
+From MV Require Import C07.Model C07.ProofsList C07.Proofs C07.ProofsRegion.
 From Coq Require Import ZifyBool.
 Local Open Scope Z_scope.
 
@@ -47,7 +47,7 @@ Lemma write_spec s src s' ok a : inv s -> write s src = (s', ok, a) ->
   (ok = false -> s' = s) /\
   acc_in_range (cap s) a = true.
 Proof.
-  intros H E. unfold write in E. cbv zeta in E. unfold writable.
+  intros H E. unfold write, write_n in E. cbv zeta in E. unfold writable.
   pose proof (writable_nonneg s H) as [C0 J0]. pose proof (wbounds s H) as (B1 & B2 & B3 & _).
   pose proof (len_nonneg src) as Hd.
   destruct (Z.leb_spec (len src) (contiguous_writable s)) as [L | L].
@@ -117,62 +117,41 @@ Proof.
       * apply acc2; lia.
 Qed.
 
-Lemma writer_fc_spec s n : inv s -> 0 <= n ->
+Lemma writer_fc_spec s n : inv s ->
   match writer_fc s n with
-  | Some off => (n <= contiguous_writable s \/ n <= jump_writable s) /\ 0 <= off /\ off + n <= cap s
+  | Some off => (n <= contiguous_writable s \/ n <= jump_writable s) /\ 0 <= off /\ off + Z.max 0 n <= cap s
   | None => contiguous_writable s < n /\ jump_writable s < n
   end.
 Proof.
-  intros H Hn. unfold writer_fc. cbv zeta.
+  intros H. unfold writer_fc. cbv zeta.
   pose proof (wbounds s H) as (B1 & B2 & B3 & _).
+  pose proof (writable_nonneg s H) as [C0 J0].
+  assert (wp s < cap s) by (open_state s; lia).
   destruct (Z.leb_spec n (contiguous_writable s)); [lia|].
   destruct (Z.leb_spec n (jump_writable s)); lia.
 Qed.
 
-(* the zero-copy writer pair, partial advance included (contract of Appendix B:
-   the pointer is the one writer_fc n just returned, at most n bytes stored) *)
-Lemma wmn_spec s n off data s2 ok : inv s -> writer_fc s n = Some off -> len data <= n ->
-  writer_move_n (poke s off data) off (len data) = (s2, ok) ->
-  ok = true /\ inv s2 /\ cap s2 = cap s /\ abs s2 = abs s ++ data.
+(* a count of at least the capacity can never be accepted *)
+Lemma write_n_too_big s n src : inv s -> cap s <= n -> write_n s n src = (s, false, []).
 Proof.
-  intros H F K E. pose proof (len_nonneg data) as Hd.
-  unfold writer_fc in F. cbv zeta in F.
-  unfold writer_move_n in E.
-  destruct (Z.leb_spec n (contiguous_writable s)) as [L | L].
-  - inversion F; subst off; clear F.
-    assert (L' : len data <= contiguous_writable s) by lia.
-    pose proof (adv_spec s data H L') as (I & C & A). cbv zeta in *.
-    destruct (Z.eqb_spec (wp s) 0) as [W0 | W0].
-    + (* start of the array: the code takes the "ptr == buffer" branch without a jump *)
-      assert (Q : s2 = advance_w s (len data) (blit (buf s) (wp s) data) /\ ok = true).
-      { inversion E; subst; clear E. split; auto.
-        clear I C A. open_state s. unfold advance_w, contiguous_writable, poke in *; cbn [cap wp rp tp buf] in *.
-        subst w.
-        destruct H as (Hc & Hl & Hw & Ht & [A | [E0 | B]]).
-        - lia.
-        - destruct E0 as (-> & _ & ->). rewrite leb_t in L' by lia. cbn [Z.eqb negb] in L'.
-          zb. reflexivity.
-        - rewrite leb_f in L' by lia. zb. reflexivity. }
-      destruct Q as [-> ->]. auto.
-    + rewrite adv_poke in E. inversion E; subst; clear E. auto.
-  - destruct (Z.leb_spec n (jump_writable s)) as [J | J]; [|discriminate].
-    inversion F; subst off; clear F.
-    pose proof (writable_nonneg s H) as [C0 J0].
-    assert (J1 : 1 <= jump_writable s) by lia.
-    assert (J2 : len data <= jump_writable s) by lia.
-    pose proof (jump_spec s data H J1 J2) as (I & A). cbv zeta in *.
-    assert (W : 0 < wp s).
-    { clear I A. open_state s. unfold jump_writable in J1; cbn [cap wp rp tp buf] in *.
-      destruct H as (Hc & Hl & Hw & Ht & [A0 | [E0 | B]]).
-      - lia.
-      - destruct E0 as (-> & -> & ->). cbn in J1. lia.
-      - rewrite leb_f in J1 by lia. lia. }
-    cbn [Z.eqb] in E. rewrite (proj1 (poke_fields s 0 data)) in E.
-    replace (wp (poke s 0 data)) with (wp s) in E by reflexivity.
-    replace (rp (poke s 0 data)) with (rp s) in E by reflexivity.
-    replace (buf (poke s 0 data)) with (blit (buf s) 0 data) in E by reflexivity.
-    rewrite (ltb_t 0 (wp s)) in E by lia.
-    inversion E; subst; clear E. auto.
+  intros H L. unfold write_n. cbv zeta.
+  pose proof (space_accounting s H) as S. pose proof (contiguous_le_readable s H) as CR.
+  pose proof (writable_nonneg s H) as [C0 J0]. unfold writable in S.
+  assert (contiguous_writable s + jump_writable s < n).
+  { destruct (rp s <=? wp s); [lia|]. open_state s. lia. }
+  rewrite (leb_f n (contiguous_writable s)) by lia.
+  rewrite (ltb_t (contiguous_writable s + jump_writable s) n) by lia. reflexivity.
+Qed.
+
+Lemma wmove_too_big s n : inv s -> cap s <= n -> writer_fc s n = None /\ writer_move s n = (s, false).
+Proof.
+  intros H L. unfold writer_fc, writer_move. cbv zeta.
+  pose proof (space_accounting s H) as S. pose proof (contiguous_le_readable s H) as CR.
+  pose proof (writable_nonneg s H) as [C0 J0]. unfold writable in S.
+  assert (contiguous_writable s + jump_writable s < n).
+  { destruct (rp s <=? wp s); [lia|]. open_state s. lia. }
+  rewrite (leb_f n (contiguous_writable s)) by lia.
+  rewrite (leb_f n (jump_writable s)) by lia. auto.
 Qed.
 
 (* the deprecated writer_move in its documented pairing with writer_fc of the same size *)
@@ -211,18 +190,36 @@ Proof.
     + split; [split; auto; lia | auto].
 Qed.
 
-Lemma reader_fc_spec s n : inv s -> 0 <= n ->
+Lemma reader_fc_spec s n : inv s ->
   match reader_fc s n with
   | Some off => n <= contiguous_readable s /\ sub (buf s) off n = take n (abs s) /\
-                n <= len (abs s) /\ 0 <= off /\ off + n <= cap s
+                n <= len (abs s) /\ 0 <= off /\ off + Z.max 0 n <= cap s
   | None => contiguous_readable s < n
   end.
 Proof.
-  intros H Hn. unfold reader_fc. cbv zeta.
+  intros H. unfold reader_fc. cbv zeta.
   destruct (Z.leb_spec n (contiguous_readable s)) as [L | L]; [|lia].
-  pose proof (peek1_spec s n H (conj Hn L)) as (P & Q & R).
   pose proof (contiguous_le_readable s H). rewrite (readable_abs s H) in *.
-  spl; auto; lia.
+  pose proof (wbounds s H) as (_ & _ & _ & B4 & B5 & _).
+  destruct (Z.leb_spec 0 n) as [Hn | Hn].
+  - pose proof (peek1_spec s n H (conj Hn L)) as (P & Q & R).
+    spl; auto; lia.
+  - (* a negative count: an empty region at the read position *)
+    spl; auto; try lia.
+    rewrite sub_nil by lia. unfold take. replace (Z.to_nat n) with 0%nat by lia. reflexivity.
+Qed.
+
+(* the bytes a reader region exposes are the oldest unread ones as long as the region is outstanding *)
+Lemma rptr_peek s off n : inv s -> rptr_ok s off n ->
+  sub (buf s) off n = take (len (sub (buf s) off n)) (abs s) /\ 0 <= off /\ off + Z.max 0 n <= cap s.
+Proof.
+  intros H (B & [N | [O L]]).
+  - rewrite sub_nil by lia. change (len []) with 0. rewrite take_0. spl; auto; lia.
+  - subst off. destruct (Z.leb_spec 0 n) as [Hn | Hn].
+    + pose proof (peek1_spec s n H (conj Hn L)) as (P & Q & R).
+      pose proof (contiguous_le_readable s H). rewrite (readable_abs s H) in *.
+      rewrite P. rewrite len_take by lia. spl; auto; lia.
+    + rewrite sub_nil by lia. change (len []) with 0. rewrite take_0. spl; auto; lia.
 Qed.
 
 Lemma reader_move_spec s k s' ok : inv s -> 0 <= k -> reader_move s k = (s', ok) ->
@@ -255,6 +252,8 @@ Definition fifo_step (q : list byte) (o : op) (r : res) (q' : list byte) : Prop 
   match o, r with
   | OWrite src, RBool true => q' = q ++ src
   | OWrite src, RBool false => q' = q
+  | OWriteN n, RBool false => q' = q
+  | OWriteN n, RSkip => q' = q
   | ORead n, RBytes (Some bs) => n <= len q /\ bs = take n q /\ q' = drop n q
   | ORead n, RBytes None => len q < n /\ q' = q
   | OFetch n, RBytes (Some bs) => n <= len q /\ bs = take n q /\ q' = q
@@ -264,8 +263,13 @@ Definition fifo_step (q : list byte) (o : op) (r : res) (q' : list byte) : Prop 
   | OWmn data, RSkip => q' = q
   | OWmove data, RMove true (Some _) => q' = q ++ data
   | OWmove data, RMove false None => q' = q
+  | OWmoveN n, RMove false None => q' = q
+  | OWmoveN n, RMove true (Some _) => n = 0 /\ q' = q     (* capacity 0: a 0-byte advance *)
+  | OWmoveN n, RSkip => q' = q
   | ORfc n, RPtrBytes (Some (_, bs)) => n <= len q /\ bs = take n q /\ q' = q
   | ORfc n, RPtrBytes None => q' = q
+  | ORpeek, RPtrBytes (Some (_, bs)) => bs = take (len bs) q /\ q' = q
+  | ORpeek, RSkip => q' = q
   | ORmove k, RBool true => k <= len q /\ q' = drop k q
   | ORmove k, RBool false => q' = q
   | OClear, RUnit => q' = []
@@ -281,10 +285,15 @@ Fixpoint fifo_trace (q : list byte) (tr : list (op * obs)) : Prop :=
     exists q', fifo_step q o (o_res ob) q' /\ o_rd ob = len q' /\ fifo_trace q' rest
   end.
 
-(* sizes are non-negative (Appendix B) *)
+(* Documented usage (Appendix B): the byte count of read / fetch / reader_move is
+   not negative.  (The code compares ints signed, takes a negative count for
+   "fits" and then copies (size_t)count bytes or moves r out of the array:
+   observation recorded in the plugin's ASSUMPTIONS, outside the property.)
+   writer_fc / reader_fc are harmless for negative counts and need no hypothesis;
+   write / writer_move / writer_move_n get their counts from payload lengths. *)
 Definition wf_op (o : op) : Prop :=
   match o with
-  | ORead n | OFetch n | OWfc n | ORfc n | ORmove n => 0 <= n
+  | ORead n | OFetch n | ORmove n => 0 <= n
   | _ => True
   end.
 
@@ -295,36 +304,52 @@ Definition refused (r : res) : bool :=
   | _ => false
   end.
 
-(* session invariant: buffer invariant + the pending pointer is what writer_fc
-   returns in the current state *)
-Definition sinv (x : sess) : Prop :=
+(* session invariant: buffer invariant + each outstanding region is still what
+   ProofsRegion.v says it must be; or the capacity-0 buffer *)
+Definition ginv (x : sess) : Prop :=
   inv (st x) /\
-  match wptr x with
-  | Some (off, n) => writer_fc (st x) n = Some off /\ 0 <= n
-  | None => True
-  end.
+  match wptr x with Some (off, n) => region_ok (st x) off n | None => True end /\
+  match rptr x with Some (off, n) => rptr_ok (st x) off n | None => True end.
 
-Lemma start_sinv c fill : 1 <= c -> sinv (start c fill).
-Proof. intros. split; [apply init_inv; auto | exact I]. Qed.
+Definition sinv (x : sess) : Prop := ginv x \/ zero_sess x.
 
-Lemma step_spec x o x' r a : sinv x -> wf_op o -> step x o = (x', r, a) ->
-  sinv x' /\ cap (st x') = cap (st x) /\
+Lemma start_sinv c fill : 0 <= c -> sinv (start c fill).
+Proof.
+  intros Hc. destruct (Z.eqb_spec c 0) as [-> | N].
+  - right. unfold zero_sess, start; cbn [st wptr rptr]. auto.
+  - left. unfold ginv, start; cbn [st wptr rptr]. split; [apply init_inv; lia | auto].
+Qed.
+
+Lemma step_spec_pos x o x' r a : ginv x -> wf_op o -> step x o = (x', r, a) ->
+  ginv x' /\ cap (st x') = cap (st x) /\
   fifo_step (abs (st x)) o r (abs (st x')) /\
   acc_in_range (cap (st x)) a = true /\
   (refused r = true -> st x' = st x).
 Proof.
-  intros [H P] W E. destruct x as [s p]; cbn [st wptr] in *.
-  destruct o; cbn [step st wptr wf_op] in *.
+  intros (H & PW & PR) W E. destruct x as [s p q]; cbn [st wptr rptr] in *.
+  destruct o; cbn [step st wptr rptr wf_op] in *.
   - (* write *)
     destruct (write s src) as [[s1 ok] a1] eqn:EW. inversion E; subst; clear E.
-    pose proof (write_spec _ _ _ _ _ H EW) as (I & C & Q & A & F & R). unfold sinv; cbn [st wptr].
+    pose proof (write_spec _ _ _ _ _ H EW) as (I & C & Q & A & F & R). unfold ginv; cbn [st wptr rptr].
+    assert (PR' : match q with Some (off, n) => rptr_ok s1 off n | None => True end).
+    { destruct q as [[off n]|]; auto.
+      pose proof (write_keeps_rptr s (len src) src off n H (len_nonneg src) PR) as K.
+      unfold write in EW. rewrite EW in K. exact K. }
     spl; auto.
     + destruct ok; cbn [fifo_step]; auto. rewrite F; auto.
     + destruct ok; cbn [refused]; auto; discriminate.
+  - (* write with a count of at least the capacity *)
+    destruct (Z.leb_spec (cap s) n) as [L | L].
+    + rewrite (write_n_too_big s n [] H L) in E. inversion E; subst; clear E.
+      unfold ginv; cbn [st wptr rptr fifo_step]. spl; auto.
+    + inversion E; subst; clear E. unfold ginv; cbn [st wptr rptr fifo_step]. spl; auto.
   - (* read *)
     destruct (read s n) as [[s1 o1] a1] eqn:ER. inversion E; subst; clear E.
-    pose proof (read_spec _ _ _ _ _ H W ER) as (I & C & Q & A & F & R). unfold sinv; cbn [st wptr].
+    pose proof (read_spec _ _ _ _ _ H W ER) as (I & C & Q & A & F & R). unfold ginv; cbn [st wptr rptr].
     rewrite (readable_abs s H) in Q.
+    assert (PW' : match p with Some (off, m) => region_ok s1 off m | None => True end).
+    { destruct p as [[off m]|]; auto.
+      pose proof (read_keeps_region s n off m H W PW) as K. rewrite ER in K. exact K. }
     spl; auto.
     + destruct o1 as [bs|]; cbn [fifo_step].
       * destruct (A bs eq_refl) as [A1 A2].
@@ -334,52 +359,231 @@ Proof.
     + destruct o1; cbn [refused]; auto; discriminate.
   - (* fetch *)
     destruct (fetch s n) as [o1 a1] eqn:EF. inversion E; subst; clear E.
-    pose proof (fetch_spec _ _ _ _ H W EF) as (Q & A & R). unfold sinv; cbn [st wptr].
+    pose proof (fetch_spec _ _ _ _ H W EF) as (Q & A & R). unfold ginv; cbn [st wptr rptr].
     rewrite (readable_abs s H) in Q.
     spl; auto.
     destruct o1 as [bs|]; cbn [fifo_step].
     + assert (~ len (abs s) < n) by (intros Hc; apply Q in Hc; discriminate).
       spl; auto; lia.
     + split; [apply Q; auto | auto].
-  - (* writer_fc *)
-    pose proof (writer_fc_spec s n H W) as Q.
-    destruct (writer_fc s n) as [off|] eqn:EF; inversion E; subst; clear E; unfold sinv; cbn [st wptr fifo_step].
-    + spl; auto. apply acc1; lia.
+  - (* writer_fc: any count *)
+    pose proof (writer_fc_spec s n H) as Q.
+    destruct (writer_fc s n) as [off|] eqn:EF; inversion E; subst; clear E; unfold ginv; cbn [st wptr rptr fifo_step].
+    + spl; auto. { apply wfc_region; auto. } apply acc1; lia.
     + spl; auto.
-  - (* writer_move_n through the pending pointer *)
+  - (* writer_move_n through the outstanding pointer *)
     destruct p as [[off n]|].
-    + destruct P as [P1 P2].
-      destruct (Z.leb_spec (len data) n) as [K | K].
+    + destruct (Z.leb_spec (len data) n) as [K | K].
       * destruct (writer_move_n (poke s off data) off (len data)) as [s2 ok] eqn:EM.
         inversion E; subst; clear E.
-        pose proof (wmn_spec _ _ _ _ _ _ H P1 K EM) as (-> & I & C & A). unfold sinv; cbn [st wptr fifo_step refused].
-        pose proof (writer_fc_spec s n H P2) as Q. rewrite P1 in Q.
-        pose proof (len_nonneg data).
+        pose proof (wmn_region_spec _ _ _ _ _ _ H PW K EM) as (-> & I & C & A). unfold ginv; cbn [st wptr rptr fifo_step refused].
+        pose proof (len_nonneg data) as Hd.
+        pose proof (region_bounds s off n (len data) H PW (conj Hd K)) as (B1 & B2).
+        assert (PR' : match q with Some (o1, n1) => rptr_ok s2 o1 n1 | None => True end).
+        { destruct q as [[o1 n1]|]; auto.
+          pose proof (wmn_keeps_rptr s off n (len data) (blit (buf s) off data) o1 n1 H PW (conj Hd K) PR) as G.
+          change (mkbb (cap s) (wp s) (rp s) (tp s) (blit (buf s) off data)) with (poke s off data) in G.
+          rewrite EM in G. exact G. }
         spl; auto; try discriminate. apply acc1; lia.
-      * inversion E; subst; clear E. unfold sinv; cbn [st wptr fifo_step]. spl; auto.
-    + inversion E; subst; clear E. unfold sinv; cbn [st wptr fifo_step]. spl; auto.
+      * inversion E; subst; clear E. unfold ginv; cbn [st wptr rptr fifo_step]. spl; auto.
+    + inversion E; subst; clear E. unfold ginv; cbn [st wptr rptr fifo_step]. spl; auto.
   - (* deprecated writer_move, paired *)
     pose proof (wmove_spec s data H) as Q.
-    pose proof (writer_fc_spec s (len data) H (len_nonneg data)) as Q2.
+    pose proof (writer_fc_spec s (len data) H) as Q2.
+    pose proof (len_nonneg data) as Hd.
     destruct (writer_fc s (len data)) as [off|] eqn:EF.
     + destruct Q as (s2 & EM & I & C & A). rewrite EM in E. inversion E; subst; clear E.
-      unfold sinv; cbn [st wptr fifo_step refused]. spl; auto; try discriminate.
-      apply acc1; try lia. apply len_nonneg.
-    + rewrite Q in E. inversion E; subst; clear E. unfold sinv; cbn [st wptr fifo_step]. spl; auto.
-  - (* reader_fc *)
-    pose proof (reader_fc_spec s n H W) as Q.
-    destruct (reader_fc s n) as [off|] eqn:EF; inversion E; subst; clear E; unfold sinv; cbn [st wptr fifo_step].
-    + destruct Q as (Q1 & Q2 & Q3 & Q4 & Q5). spl; auto. apply acc1; lia.
+      unfold ginv; cbn [st wptr rptr fifo_step refused].
+      assert (PR' : match q with Some (o1, n1) => rptr_ok s2 o1 n1 | None => True end).
+      { destruct q as [[o1 n1]|]; auto.
+        pose proof (wmove_keeps_rptr s (len data) (blit (buf s) off data) o1 n1 H Hd PR) as G.
+        change (mkbb (cap s) (wp s) (rp s) (tp s) (blit (buf s) off data)) with (poke s off data) in G.
+        rewrite EM in G. exact G. }
+      spl; auto; try discriminate.
+      apply acc1; lia.
+    + rewrite Q in E. inversion E; subst; clear E. unfold ginv; cbn [st wptr rptr fifo_step]. spl; auto.
+  - (* writer_fc + writer_move with a count of at least the capacity *)
+    destruct (Z.leb_spec (cap s) n) as [L | L].
+    + destruct (wmove_too_big s n H L) as [F1 F2]. rewrite F1, F2 in E. inversion E; subst; clear E.
+      unfold ginv; cbn [st wptr rptr fifo_step]. spl; auto.
+    + inversion E; subst; clear E. unfold ginv; cbn [st wptr rptr fifo_step]. spl; auto.
+  - (* reader_fc: any count *)
+    pose proof (reader_fc_spec s n H) as Q.
+    destruct (reader_fc s n) as [off|] eqn:EF; inversion E; subst; clear E; unfold ginv; cbn [st wptr rptr fifo_step].
+    + destruct Q as (Q1 & Q2 & Q3 & Q4 & Q5). spl; auto. { apply rfc_rptr; auto. } apply acc1; lia.
+    + spl; auto.
+  - (* re-read of the outstanding reader region *)
+    destruct q as [[off n]|]; inversion E; subst; clear E; unfold ginv; cbn [st wptr rptr fifo_step].
+    + pose proof (rptr_peek s off n H PR) as (P1 & P2 & P3). spl; auto. apply acc1; lia.
     + spl; auto.
   - (* reader_move *)
     destruct (reader_move s k) as [s1 ok] eqn:EM. inversion E; subst; clear E.
-    pose proof (reader_move_spec _ _ _ _ H W EM) as (I & C & Q & A & F). unfold sinv; cbn [st wptr].
+    pose proof (reader_move_spec _ _ _ _ H W EM) as (I & C & Q & A & F). unfold ginv; cbn [st wptr rptr].
+    assert (PW' : match p with Some (off, m) => region_ok s1 off m | None => True end).
+    { destruct p as [[off m]|]; auto.
+      pose proof (rmove_keeps_region s k off m H W PW) as G. rewrite EM in G. exact G. }
     spl; auto.
     + destruct ok; cbn [fifo_step]; auto. rewrite F; auto.
     + destruct ok; cbn [refused]; auto; discriminate.
   - (* clear *)
-    inversion E; subst; clear E. pose proof (clear_spec s H) as (I & C & A). unfold sinv; cbn [st wptr fifo_step].
+    inversion E; subst; clear E. pose proof (clear_spec s H) as (I & C & A). unfold ginv; cbn [st wptr rptr fifo_step].
     spl; auto. discriminate.
+Qed.
+
+(* capacity 0: what each function answers in the only state there is *)
+Ltac zfun := intros; unfold write_n, read, fetch, writer_fc, writer_move, writer_move_n, reader_fc, reader_move,
+    refresh, clear, advance_w, poke, contiguous_writable, jump_writable, contiguous_readable, jump_readable, zero_bb;
+  cbn [cap wp rp tp buf]; cbv zeta; zb; cbn [cap wp rp tp buf]; zb.
+
+Lemma z_write_n n src : 0 <= n -> write_n zero_bb n src = (zero_bb, false, []).
+Proof. zfun. reflexivity. Qed.
+Lemma z_read_0 : read zero_bb 0 = (zero_bb, Some [], [(0, 0)]).
+Proof. reflexivity. Qed.
+Lemma z_read_pos n : 0 < n -> read zero_bb n = (zero_bb, None, []).
+Proof. zfun. reflexivity. Qed.
+Lemma z_fetch_0 : fetch zero_bb 0 = (Some [], [(0, 0)]).
+Proof. reflexivity. Qed.
+Lemma z_fetch_pos n : 0 < n -> fetch zero_bb n = (None, []).
+Proof. zfun. reflexivity. Qed.
+Lemma z_wfc_le n : n <= 0 -> writer_fc zero_bb n = Some 0.
+Proof.
+  intros. unfold writer_fc, contiguous_writable, jump_writable, zero_bb; cbn [cap wp rp tp buf]. cbv zeta. zb.
+  destruct (Z.leb_spec n (0 - 0 - 1)); [reflexivity|]. zb. reflexivity.
+Qed.
+Lemma z_wfc_pos n : 0 < n -> writer_fc zero_bb n = None.
+Proof. zfun. reflexivity. Qed.
+Lemma z_wmn : writer_move_n (poke zero_bb 0 []) 0 0 = (zero_bb, true).
+Proof. reflexivity. Qed.
+Lemma z_wmove_0 : writer_move (poke zero_bb 0 []) 0 = (zero_bb, true).
+Proof. reflexivity. Qed.
+Lemma z_wmove_pos n : 0 < n -> writer_move zero_bb n = (zero_bb, false).
+Proof. zfun. reflexivity. Qed.
+Lemma z_rfc_le n : n <= 0 -> reader_fc zero_bb n = Some 0.
+Proof. zfun. reflexivity. Qed.
+Lemma z_rfc_pos n : 0 < n -> reader_fc zero_bb n = None.
+Proof. zfun. reflexivity. Qed.
+Lemma z_rmove_0 : reader_move zero_bb 0 = (zero_bb, true).
+Proof. reflexivity. Qed.
+Lemma z_rmove_pos k : 0 < k -> reader_move zero_bb k = (zero_bb, false).
+Proof. zfun. reflexivity. Qed.
+
+Lemma acc00 : acc_in_range 0 [(0, 0)] = true.
+Proof. reflexivity. Qed.
+Lemma take_nil n : take n [] = [].
+Proof. unfold take. apply firstn_nil. Qed.
+
+(* capacity 0: nothing is ever accepted, delivered or touched; the state never changes *)
+Lemma step_spec_zero x o x' r a : zero_sess x -> wf_op o -> step x o = (x', r, a) ->
+  zero_sess x' /\ fifo_step [] o r [] /\ acc_in_range 0 a = true.
+Proof.
+  intros (S & PW & PR) W E. destruct x as [s p q]; cbn [st wptr rptr] in *. subst s.
+  destruct o; cbn [step st wptr rptr wf_op] in *.
+  - (* write *)
+    unfold write in E. rewrite (z_write_n _ _ (len_nonneg src)) in E. inversion E; subst; clear E.
+    unfold zero_sess; cbn [st wptr rptr fifo_step]. spl; auto.
+  - (* writen *)
+    change (cap zero_bb) with 0 in E.
+    destruct (Z.leb_spec 0 n) as [L | L].
+    + rewrite (z_write_n _ _ L) in E. inversion E; subst; clear E.
+      unfold zero_sess; cbn [st wptr rptr fifo_step]. spl; auto.
+    + inversion E; subst; clear E. unfold zero_sess; cbn [st wptr rptr fifo_step]. spl; auto.
+  - (* read *)
+    destruct (Z.eqb_spec n 0) as [-> | N].
+    + rewrite z_read_0 in E. inversion E; subst; clear E.
+      unfold zero_sess; cbn [st wptr rptr fifo_step]. spl; auto; try (change (len []) with 0; lia).
+    + rewrite (z_read_pos n) in E by lia. inversion E; subst; clear E.
+      unfold zero_sess; cbn [st wptr rptr fifo_step]. spl; auto; try (change (len []) with 0; lia).
+  - (* fetch *)
+    destruct (Z.eqb_spec n 0) as [-> | N].
+    + rewrite z_fetch_0 in E. inversion E; subst; clear E.
+      unfold zero_sess; cbn [st wptr rptr fifo_step]. spl; auto; try (change (len []) with 0; lia).
+    + rewrite (z_fetch_pos n) in E by lia. inversion E; subst; clear E.
+      unfold zero_sess; cbn [st wptr rptr fifo_step]. spl; auto; try (change (len []) with 0; lia).
+  - (* writer_fc *)
+    destruct (Z.leb_spec n 0) as [L | L].
+    + rewrite (z_wfc_le n L) in E. inversion E; subst; clear E.
+      unfold zero_sess; cbn [st wptr rptr fifo_step]. spl; auto.
+      replace (Z.max 0 n) with 0 by lia. reflexivity.
+    + rewrite (z_wfc_pos n L) in E. inversion E; subst; clear E.
+      unfold zero_sess; cbn [st wptr rptr fifo_step]. spl; auto.
+  - (* writer_move_n *)
+    destruct p as [[off n]|].
+    + destruct PW as [-> PN].
+      destruct (Z.leb_spec (len data) n) as [K | K].
+      * assert (data = []) by (apply len_le0_nil; lia). subst data. change (len []) with 0 in E.
+        rewrite z_wmn in E. inversion E; subst; clear E.
+        unfold zero_sess; cbn [st wptr rptr fifo_step]. spl; auto.
+      * inversion E; subst; clear E. unfold zero_sess; cbn [st wptr rptr fifo_step]. spl; auto.
+    + inversion E; subst; clear E. unfold zero_sess; cbn [st wptr rptr fifo_step]. spl; auto.
+  - (* deprecated writer_move *)
+    pose proof (len_nonneg data) as Hd.
+    destruct (Z.eqb_spec (len data) 0) as [Z0 | N].
+    + pose proof (len_zero_nil data Z0) as ->. change (len []) with 0 in E.
+      rewrite (z_wfc_le 0) in E by lia. rewrite z_wmove_0 in E. inversion E; subst; clear E.
+      unfold zero_sess; cbn [st wptr rptr fifo_step]. spl; auto.
+    + rewrite (z_wfc_pos (len data)) in E by lia. rewrite (z_wmove_pos (len data)) in E by lia.
+      inversion E; subst; clear E. unfold zero_sess; cbn [st wptr rptr fifo_step]. spl; auto.
+  - (* writer_fc + writer_move, count >= capacity *)
+    change (cap zero_bb) with 0 in E.
+    destruct (Z.leb_spec 0 n) as [L | L].
+    + destruct (Z.eqb_spec n 0) as [-> | N].
+      * (* n = 0 = c: a 0-byte region at the origin and a 0-byte advance: nothing moves *)
+        rewrite (z_wfc_le 0) in E by lia.
+        change (writer_move zero_bb 0) with (zero_bb, true) in E. inversion E; subst; clear E.
+        unfold zero_sess; cbn [st wptr rptr fifo_step]. spl; auto.
+      * rewrite (z_wfc_pos n) in E by lia. rewrite (z_wmove_pos n) in E by lia. inversion E; subst; clear E.
+        unfold zero_sess; cbn [st wptr rptr fifo_step]. spl; auto.
+    + inversion E; subst; clear E. unfold zero_sess; cbn [st wptr rptr fifo_step]. spl; auto.
+  - (* reader_fc *)
+    destruct (Z.leb_spec n 0) as [L | L].
+    + rewrite (z_rfc_le n L) in E. inversion E; subst; clear E.
+      unfold zero_sess; cbn [st wptr rptr fifo_step buf zero_bb]. rewrite sub_nil_any, take_nil.
+      spl; auto; try (change (len []) with 0; lia).
+      replace (Z.max 0 n) with 0 by lia. reflexivity.
+    + rewrite (z_rfc_pos n L) in E. inversion E; subst; clear E.
+      unfold zero_sess; cbn [st wptr rptr fifo_step]. spl; auto.
+  - (* re-read *)
+    destruct q as [[off n]|]; inversion E; subst; clear E; unfold zero_sess; cbn [st wptr rptr fifo_step buf zero_bb].
+    + destruct PR as [-> PN]. rewrite sub_nil_any. change (len []) with 0. rewrite take_nil.
+      spl; auto. replace (Z.max 0 n) with 0 by lia. reflexivity.
+    + spl; auto.
+  - (* reader_move *)
+    destruct (Z.eqb_spec k 0) as [-> | N].
+    + rewrite z_rmove_0 in E. inversion E; subst; clear E.
+      unfold zero_sess; cbn [st wptr rptr fifo_step]. spl; auto; try (change (len []) with 0; lia).
+    + rewrite (z_rmove_pos k) in E by lia. inversion E; subst; clear E.
+      unfold zero_sess; cbn [st wptr rptr fifo_step]. spl; auto.
+  - (* clear *)
+    inversion E; subst; clear E. unfold zero_sess; cbn [st wptr rptr fifo_step]. spl; auto.
+Qed.
+
+Lemma step_spec x o x' r a : sinv x -> wf_op o -> step x o = (x', r, a) ->
+  sinv x' /\ cap (st x') = cap (st x) /\
+  fifo_step (abs (st x)) o r (abs (st x')) /\
+  acc_in_range (cap (st x)) a = true /\
+  (refused r = true -> st x' = st x).
+Proof.
+  intros [G | Z] W E.
+  - pose proof (step_spec_pos _ _ _ _ _ G W E) as (G' & C & F & A & R).
+    spl; auto. left; auto.
+  - pose proof (step_spec_zero _ _ _ _ _ Z W E) as (Z' & F & A).
+    destruct Z as (S & _). destruct Z' as (S' & Z2). rewrite S, S' in *.
+    spl; auto. right. split; auto.
+Qed.
+
+
+Lemma sinv_readable x : sinv x -> readable (st x) = len (abs (st x)).
+Proof.
+  intros [G | (S & _)].
+  - apply readable_abs. apply G.
+  - rewrite S. reflexivity.
+Qed.
+
+Lemma sinv_inv x : sinv x -> 1 <= cap (st x) -> inv (st x).
+Proof.
+  intros [G | (S & _)] C.
+  - apply G.
+  - rewrite S in C. cbn in C. lia.
 Qed.
 
 Lemma observe_spec x o x' ob : sinv x -> wf_op o -> observe x o = (x', ob) ->
@@ -392,7 +596,7 @@ Proof.
   intros S W E. unfold observe in E.
   destruct (step x o) as [[x1 r] a] eqn:ES. inversion E; subst; clear E. cbn [o_res o_rd o_acc].
   pose proof (step_spec _ _ _ _ _ S W ES) as (S' & C & F & A & R).
-  spl; auto; try apply S'. apply readable_abs. apply S'.
+  spl; auto. apply sinv_readable; auto.
 Qed.
 
 (* history level: from any state satisfying the invariant *)
@@ -409,23 +613,23 @@ Proof.
     inversion W as [|? ? W1 W2]; subst.
     pose proof (observe_spec _ _ _ _ S W1 EO) as (S1 & C1 & F1 & R1 & A1 & _).
     pose proof (IH _ _ _ S1 W2 ER) as (S2 & C2 & F2 & A2 & L2).
-    spl; try apply S2.
+    spl; auto.
     + congruence.
     + cbn [combine fifo_trace]. exists (abs (st x1)). auto.
     + constructor; auto. rewrite <- C1. auto.
     + cbn. congruence.
 Qed.
 
-Lemma run_from_init c fill ops x outs : 1 <= c -> Forall wf_op ops ->
+Lemma run_from_init c fill ops x outs : 0 <= c -> Forall wf_op ops ->
   run (start c fill) ops = (x, outs) ->
-  inv (st x) /\ cap (st x) = c /\
+  sinv x /\ cap (st x) = c /\
   fifo_trace [] (combine ops outs) /\
   Forall (fun ob => acc_in_range c (o_acc ob) = true) outs /\
   length outs = length ops.
 Proof.
   intros Hc W E.
   pose proof (run_spec ops _ _ _ (start_sinv c fill Hc) W E) as (S & C & F & A & L).
-  spl; auto; apply S.
+  spl; auto.
 Qed.
 
 (* every state reachable from init satisfies A.4 and reports readable = |abs| *)
@@ -434,18 +638,28 @@ Lemma reachable_inv c fill ops : 1 <= c -> Forall wf_op ops ->
   inv s /\ cap s = c /\ readable s = len (abs s).
 Proof.
   intros Hc W. destruct (run (start c fill) ops) as [x outs] eqn:E. cbn [fst].
-  pose proof (run_from_init _ _ _ _ _ Hc W E) as (I & C & _).
+  assert (Hc0 : 0 <= c) by lia.
+  pose proof (run_from_init _ _ _ _ _ Hc0 W E) as (I & C & _).
+  assert (inv (st x)) by (apply sinv_inv; auto; lia).
   spl; auto. apply readable_abs; auto.
 Qed.
 
-Lemma refines_fifo c fill ops : 1 <= c -> Forall wf_op ops ->
+(* readable() is exact for capacity 0 too *)
+Lemma reachable_readable c fill ops : 0 <= c -> Forall wf_op ops ->
+  let s := st (fst (run (start c fill) ops)) in readable s = len (abs s).
+Proof.
+  intros Hc W. destruct (run (start c fill) ops) as [x outs] eqn:E. cbn [fst].
+  pose proof (run_from_init _ _ _ _ _ Hc W E) as (I & _). apply sinv_readable; auto.
+Qed.
+
+Lemma refines_fifo c fill ops : 0 <= c -> Forall wf_op ops ->
   fifo_trace [] (combine ops (snd (run (start c fill) ops))).
 Proof.
   intros Hc W. destruct (run (start c fill) ops) as [x outs] eqn:E. cbn [snd].
   apply (run_from_init _ _ _ _ _ Hc W E).
 Qed.
 
-Lemma indices_in_range c fill ops : 1 <= c -> Forall wf_op ops ->
+Lemma indices_in_range c fill ops : 0 <= c -> Forall wf_op ops ->
   Forall (fun ob => acc_in_range c (o_acc ob) = true) (snd (run (start c fill) ops)).
 Proof.
   intros Hc W. destruct (run (start c fill) ops) as [x outs] eqn:E. cbn [snd].
@@ -453,7 +667,7 @@ Proof.
 Qed.
 
 (* a refused operation leaves the buffer exactly as it was, at every point of every history *)
-Lemma refused_unchanged c fill ops o : 1 <= c -> Forall wf_op ops -> wf_op o ->
+Lemma refused_unchanged c fill ops o : 0 <= c -> Forall wf_op ops -> wf_op o ->
   let x := fst (run (start c fill) ops) in
   refused (snd (fst (step x o))) = true -> st (fst (fst (step x o))) = st x.
 Proof.
@@ -463,6 +677,33 @@ Proof.
   apply (step_spec _ _ _ _ _ S Wo ES).
 Qed.
 
+(* the outstanding regions at every point of every history: the writer region is
+   free space (at w, at the origin for a jump, or anywhere in a buffer that was
+   emptied since), the reader region is empty or the first contiguous unread bytes *)
+Lemma regions_outstanding c fill ops : 1 <= c -> Forall wf_op ops ->
+  let x := fst (run (start c fill) ops) in
+  match wptr x with Some (off, n) => region_ok (st x) off n | None => True end /\
+  match rptr x with Some (off, n) => rptr_ok (st x) off n | None => True end.
+Proof.
+  intros Hc W. destruct (run (start c fill) ops) as [x outs] eqn:E. cbn [fst].
+  assert (Hc0 : 0 <= c) by lia.
+  pose proof (run_from_init _ _ _ _ _ Hc0 W E) as ([G | (S & _)] & C & _).
+  - split; apply G.
+  - rewrite S in C. cbn in C. lia.
+Qed.
+
+(* init fails exactly when the allocation fails; a negative capacity is an allocation that cannot succeed *)
+Lemma init_fails_iff c fill ok : init_opt c fill ok = None <-> (c < 0 \/ ok = false).
+Proof.
+  unfold init_opt. destruct (Z.ltb_spec c 0); destruct ok; cbn [orb negb]; split; intros; auto; try discriminate;
+    try lia; try (destruct H0; [lia | discriminate]).
+Qed.
+
+Lemma init_succeeds c fill : 0 <= c -> start_opt c fill true = Some (start c fill).
+Proof.
+  intros. unfold start_opt, init_opt, start. rewrite (ltb_f c 0) by lia. reflexivity.
+Qed.
+
 (* failure iff the kind of space / data needed is lacking; state unchanged then *)
 Lemma fail_iff_lack s : inv s ->
   (forall src, snd (fst (write s src)) = false <-> writable s < len src) /\
@@ -470,12 +711,12 @@ Lemma fail_iff_lack s : inv s ->
   (forall n, 0 <= n -> (snd (fst (read s n)) = None <-> readable s < n)) /\
   (forall n, 0 <= n -> snd (fst (read s n)) = None -> fst (fst (read s n)) = s) /\
   (forall n, 0 <= n -> (fst (fetch s n) = None <-> readable s < n)) /\
-  (forall n, 0 <= n -> (writer_fc s n = None <-> contiguous_writable s < n /\ jump_writable s < n)) /\
-  (forall n off data, writer_fc s n = Some off -> len data <= n ->
+  (forall n, writer_fc s n = None <-> contiguous_writable s < n /\ jump_writable s < n) /\
+  (forall n off data, region_ok s off n -> len data <= n ->
                       snd (writer_move_n (poke s off data) off (len data)) = true) /\
   (forall n, 0 <= n -> (snd (writer_move s n) = false <-> contiguous_writable s < n /\ jump_writable s < n)) /\
   (forall n, 0 <= n -> snd (writer_move s n) = false -> fst (writer_move s n) = s) /\
-  (forall n, 0 <= n -> (reader_fc s n = None <-> contiguous_readable s < n)) /\
+  (forall n, reader_fc s n = None <-> contiguous_readable s < n) /\
   (forall k, 0 <= k -> (snd (reader_move s k) = false <-> contiguous_readable s < k)) /\
   (forall k, 0 <= k -> snd (reader_move s k) = false -> fst (reader_move s k) = s).
 Proof.
@@ -492,14 +733,14 @@ Proof.
     pose proof (read_spec _ _ _ _ _ H Hn E) as (_ & _ & _ & _ & F & _). auto.
   - intros n Hn. destruct (fetch s n) as [r a] eqn:E; cbn [fst snd].
     pose proof (fetch_spec _ _ _ _ H Hn E) as (Q & _). apply Q.
-  - intros n Hn. pose proof (writer_fc_spec s n H Hn) as Q.
+  - intros n. pose proof (writer_fc_spec s n H) as Q.
     destruct (writer_fc s n); split; intros; auto; try discriminate; lia.
   - intros n off data F K.
     destruct (writer_move_n (poke s off data) off (len data)) as [s2 ok] eqn:E; cbn [snd].
-    apply (wmn_spec _ _ _ _ _ _ H F K E).
+    apply (wmn_region_spec _ _ _ _ _ _ H F K E).
   - intros n Hn. apply (writer_move_fail s n Hn).
   - intros n Hn. apply (writer_move_fail s n Hn).
-  - intros n Hn. pose proof (reader_fc_spec s n H Hn) as Q.
+  - intros n. pose proof (reader_fc_spec s n H) as Q.
     destruct (reader_fc s n); split; intros; auto; try discriminate; lia.
   - intros k Hk. destruct (reader_move s k) as [s1 ok] eqn:E; cbn [fst snd].
     pose proof (reader_move_spec _ _ _ _ H Hk E) as (_ & _ & Q & _). destruct ok; split; intros; try discriminate; auto.
@@ -576,4 +817,45 @@ Proof.
   intros (_ & _ & _ & _ & [T | [T | T]]); vm_compute in T; destruct T as [T1 T2];
     first [discriminate T1 | discriminate T2 | (destruct T2 as [T2 _]; discriminate T2)
           | (exfalso; apply T1; reflexivity) | (exfalso; apply T2; reflexivity)].
+Qed.
+
+(* The wider operation language is not vacuous either: a region handed out at
+   offset 3, the reader drains the buffer (refresh() goes back to the origin),
+   fetch on the empty buffer, the commit through the region AFTER that (the
+   repaired path: [8;9] is delivered, not the stale [1;2]); a reader region that
+   stays valid while the writer writes; negative counts for writer_fc /
+   reader_fc (empty regions); counts of at least the capacity; a second
+   outstanding writer region across reader_move / reader_fc. *)
+Definition ex_ops2 : list op :=
+  [OWrite [1;2;3]; OWfc 2; ORead 3; OFetch 1; OWmn [8;9]; OFetch 2; ORfc 2; OWrite [4]; ORpeek; OWfc (-1); OWmn [];
+   ORfc (-5); ORpeek; OWriteN 8; OWriteN 3; OWmoveN 9; OWfc 2; ORmove 2; ORfc 1; OWmn [5;6]; ORpeek; ORead 3; ORpeek].
+
+Example ex2_wf : Forall wf_op ex_ops2.
+Proof. repeat constructor; cbn; lia. Qed.
+
+Example ex2_results :
+  map o_res (snd (run (start 8 0) ex_ops2)) =
+  [RBool true; RPtr (Some 3); RBytes (Some [1;2;3]); RBytes None; RBool true; RBytes (Some [8;9]);
+   RPtrBytes (Some (3, [8;9])); RBool true; RPtrBytes (Some (3, [8;9])); RPtr (Some 6); RSkip;
+   RPtrBytes (Some (3, [])); RPtrBytes (Some (3, [])); RBool false; RSkip; RMove false None; RPtr (Some 6);
+   RBool true; RPtrBytes (Some (5, [4])); RBool true; RPtrBytes (Some (5, [4])); RBytes (Some [4;5;6]); RSkip]
+  /\ map o_rd (snd (run (start 8 0) ex_ops2)) = [3;3;0;0;2;2;2;3;3;3;3;3;3;3;3;3;3;1;1;3;3;0;0].
+Proof. vm_compute. split; reflexivity. Qed.
+
+(* capacity 0: every write is refused, 0-byte reads / regions / advances succeed, nothing ever changes *)
+Definition ex_ops0 : list op :=
+  [OWrite []; OWrite [1]; ORead 0; ORead 1; OFetch 0; OWfc 0; OWmn []; OWfc (-3); OWmove []; OWmove [2]; OWriteN 0;
+   OWmoveN 0; OWmoveN 1; ORfc 0; ORpeek; ORmove 0; ORmove 1; OClear].
+
+Example ex0_results :
+  Forall wf_op ex_ops0 /\
+  map o_res (snd (run (start 0 0) ex_ops0)) =
+  [RBool false; RBool false; RBytes (Some []); RBytes None; RBytes (Some []); RPtr (Some 0); RBool true; RPtr (Some 0);
+   RMove true (Some 0); RMove false None; RBool false; RMove true (Some 0); RMove false None; RPtrBytes (Some (0, []));
+   RPtrBytes (Some (0, [])); RBool true; RBool false; RUnit]
+  /\ Forall (fun ob => o_rd ob = 0) (snd (run (start 0 0) ex_ops0))
+  /\ start_opt 0 0 true = Some (start 0 0) /\ start_opt (-1) 0 true = None /\ start_opt 8 0 false = None.
+Proof.
+  split; [repeat constructor; cbn; lia|].
+  vm_compute. repeat split; try reflexivity. repeat constructor.
 Qed.
